@@ -1,6 +1,6 @@
 (* C05/Examples.v — concrete instances: the hypotheses of the theorems are satisfiable (non-vacuity), and
    the witnesses of the refuted clauses (findings F05a, F05c).  Everything by computation. *)
-Require Import CF.C05.Model CF.C05.Proofs_create CF.C05.Proofs_add CF.C05.Proofs_unpack CF.C05.Proofs_flags CF.C05.Proofs_hist CF.C05.Proofs_sync CF.C05.SyncThreads CF.C05.Proofs_threads.
+Require Import CF.C05.Model CF.C05.Proofs_create CF.C05.Proofs_add CF.C05.Proofs_unpack CF.C05.Proofs_flags CF.C05.Proofs_hist CF.C05.Proofs_sync CF.C05.SyncThreads CF.C05.Proofs_threads CF.C05.Wire.
 Open Scope Z_scope.
 
 (* a TOC with 12 one-byte variables (idents 300..311) and a float *)
@@ -204,3 +204,15 @@ Example ex_threads_stale_sentinel_race :
   snd (t_run (tsl_init [0]) [TConnect; TLost1; TConnect; TLost2; TSample 0 7; TNext; TGet])
     = [ONone; ONone; ONone; ONone; ONone; OInGet; OStop].
 Proof. vm_compute. reflexivity. Qed.
+
+(* ---------------------------------------------------------------- the value contract on the 12-variable block *)
+(* the two messages of the block (nine + three variables) through a radio that transmits nothing until both
+   are queued: with a fresh packet per message both arrive; with one re-filled packet the create message is lost *)
+Example ex_wire_12_variables :
+  let vs := map (fun k => mkVar true k 1 1 0) [0;1;2;3;4;5;6;7;8;9;10;11] in
+  let msgs := messages_v2 ex_toc 1 vs in
+  length msgs = 2%nat /\
+  w_out (w_run w_init (create_ops 0 msgs [0%nat; 2%nat])) = msgs /\
+  w_out (w_run w_init [WNew (nth 0 msgs []); WSend 0; WSet 0 (nth 1 msgs []); WSend 0; WTx; WTx])
+    = [nth 1 msgs []; nth 1 msgs []].
+Proof. vm_compute. repeat split; reflexivity. Qed.
